@@ -120,7 +120,7 @@ UNIT = Unit("rc4", ["base.rs"], [
     rc4_lemmas,
     Item(RC4, "struct", "Rc4", mod="rc4"),
     rc4_view,
-    Fn(RC4, "new", impl=r"Rc4", mod="rc4", props=["C16", "C15"], nloops=2,
+    Fn(RC4, "new", impl=r"Rc4", mod="rc4", props=["C16", "C15", "C07"], nloops=2,
        body_sub=[(r"for \(i, x\) in rc4\.state\.iter_mut\(\)\.enumerate\(\) \{\s*\*x = i as u8;\s*\}", "for i in 0..256 { rc4.state[i] = i as u8; }"),
                  (r"rc4\.state\.swap\(i, j as usize\)", "swap256(&mut rc4.state, i, j as usize)")],
        requires=["1 <= key@.len() <= 256"],
@@ -130,11 +130,11 @@ UNIT = Unit("rc4", ["base.rs"], [
                         ksa_from(rc4.state@, key@, i as int, j) == ksa_from(identity_perm(), key@, 0, 0),"""},
        hints=[(r"let mut j: u8 = 0;", 1, "proof { assert(rc4.state@ =~= identity_perm()); }", "before")],
        ensures=[("C16,C15", "ksa", "r.view() == ksa(key@)"), (None, "wf", "well_formed(r.view())")]),
-    Fn(RC4, "next", impl=r"Rc4", mod="rc4", props=["C16"],
+    Fn(RC4, "next", impl=r"Rc4", mod="rc4", props=["C16", "C07"],
        body_sub=[(r"self\.state\.swap\(self\.i as usize, self\.j as usize\)", "swap256(&mut self.state, self.i as usize, self.j as usize)")],
        requires=["well_formed(old(self).view())"],
        ensures=[("C16", "prga", "final(self).view() == prga_step(old(self).view()).0 && r == prga_step(old(self).view()).1"), (None, "wf", "well_formed(final(self).view())")]),
-    Fn(RC4, "process", impl=r"Rc4", mod="rc4", props=["C16", "C15"], nloops=1,
+    Fn(RC4, "process", impl=r"Rc4", mod="rc4", props=["C16", "C15", "C07"], nloops=1,
        body_sub=[(r"for \(x, y\) in input\.iter\(\)\.zip\(output\.iter_mut\(\)\) \{\s*\*y = \*x \^ self\.next\(\);\s*\}", "for k in 0..input.len() { output[k] = input[k] ^ self.next(); }")],
        requires=["well_formed(old(self).view())", "input@.len() == old(output)@.len()"],
        loops={1: """invariant output@.len() == input@.len(), well_formed(self.view()),
